@@ -63,10 +63,8 @@ OL_GEN = [
          harness=[ol_harness("eth", O2, B2)], shards=16, rej_sample=2, timeout=1500),
     # three oracles competing for three bridger and two external addresses: full life cycle, every operation in every state
     dict(name="gen3", tiers=["thorough"], consts=ol_consts(O3, B3, ["v1"], 3, 2, 0, 1, slashop=False), overrides=DEV_AMTS,
-         harness=[ol_harness("eth", O3, B3)], shards=16, rej_sample=0, timeout=1500),
-    # ... and end-block slashing among three (all subsets of confirmers)
-    dict(name="gen3age", tiers=["thorough"], consts=ol_consts(O3, B3, ["v1"], 3, 1, 1, 1, slashop=False), overrides=DEV_AMTS,
-         harness=[ol_harness("eth", O3, B3)], shards=16, rej_sample=1, timeout=1500),
+         harness=[ol_harness("eth", O3, B3)], shards=16, rej_sample=0, timeout=1500,
+         may_never_succeed=("WithdrawReward",)),   # needs a re-activation (AddDelegate) after a matured removal: MaxMops = 0 here
 ]
 
 
